@@ -142,15 +142,21 @@ def c18_case(ctx: Ctx, case: dict):
         (d / "pyproject.toml").write_text("[tool.other]\nx = 1\n")
     eff = dict(cli_o)
     eff.update(cfg_o)      # documented: the configuration file overrides the command line
-    rc, out = run_cli(cli_args(cmd, "model.ode", cli_o, cfgpath), d)
     suffix = ".py" if cmd == "ode2py" else eff.get("to", ".h")
     target = d / Path(eff["outname"] if "outname" in cli_o else "model.ode").with_suffix(suffix)
     invalid = case.get("invalid")
+    if invalid and case.get("preexisting"):
+        target.write_text("KEEP: an earlier good output\n")    # a failed run must not clobber it either
+    rc, out = run_cli(cli_args(cmd, "model.ode", cli_o, cfgpath), d)
     produced = sorted(p.name for p in d.iterdir() if p.is_file() and p.name not in ("model.ode", "pyproject.toml"))
     
     if invalid:
         if rc == 0:
             ctx.violate(f"C18/{cmd}/invalid-model-exit-zero", f"{cmd} on an invalid model ({invalid}) exits 0", case=case)
+        if case.get("preexisting"):
+            if not target.exists() or target.read_text() != "KEEP: an earlier good output\n":
+                ctx.violate(f"C18/{cmd}/invalid-model-clobbers-output", f"{cmd} on an invalid model ({invalid}) removed or overwrote an existing output file", case=case)
+            produced = [p_ for p_ in produced if p_ != target.name]
         if produced:
             ctx.violate(f"C18/{cmd}/invalid-model-writes-output", f"{cmd} on an invalid model ({invalid}) wrote {produced}", case=case)
         return
@@ -258,11 +264,15 @@ def gen_case(ctx: Ctx, k: int):
                 c["to"] = ".c"
         case["config"] = c
         case["config_mode"] = mode
-    if k % 7 == 6:
-        bad = rng.choice(["syntax", "duplicate", "undefined", "incomplete"])
+    if k % 5 == 4:
+        # invalid at load time, or only at code generation (a cycle, a name the generated code reserves)
+        bad = rng.choice(["syntax", "duplicate", "undefined", "incomplete", "cycle", "reserved", "reserved"])
+        reserved = rng.choice(["values", "rhs", "states", "lambda"] if cmd == "ode2py" else ["double", "values", "rhs", "pow"])
         case["text"] = {"syntax": text + "x = = 3\n", "duplicate": text + "zz = 1\nzz = 2\n", "undefined": text + "zz = nope_q + 1\n",
-                        "incomplete": text + "states(zq=1)\n"}[bad]
+                        "incomplete": text + "states(zq=1)\n", "cycle": text + "zz1 = zz2 + 1\nzz2 = zz1*2\n",
+                        "reserved": text + f"{reserved} = 1.5\n"}[bad]
         case["invalid"] = bad
+        case["preexisting"] = rng.random() < 0.5
     return case
 
 
